@@ -42,6 +42,21 @@ func build(cfg runCfg) (*ss.System, error) {
 		if err := sys.Seed(cfg.SeedReplicate(1, 1, acks)); err != nil {
 			return nil, err
 		}
+	case "commit2-lagging":
+		// first request replicated everywhere and answered, second one committed on a bare majority
+		// (needs a client script of >= 2 requests)
+		for _, sc := range [][]ss.SeedStep{cfg.SeedElect(1), cfg.SeedReplicate(1, 1, cfg.Others(1)), cfg.SeedClientRecv(1)} {
+			if err := sys.Seed(sc); err != nil {
+				return nil, err
+			}
+		}
+		var acks []int
+		for j := 2; j <= cfg.NumServers/2+1; j++ {
+			acks = append(acks, j)
+		}
+		if err := sys.Seed(cfg.SeedReplicate(1, 1, acks)); err != nil {
+			return nil, err
+		}
 	default:
 		return nil, fmt.Errorf("unknown seed %q", cfg.Seed)
 	}
@@ -88,10 +103,12 @@ func TestCheck(t *testing.T) {
 			return res
 		}
 		put := [][]raftkvs.Req{{{Type: "put", Key: "k", Value: "v"}}}
+		put2 := [][]raftkvs.Req{{{Type: "put", Key: "k", Value: "v1"}, {Type: "put", Key: "k", Value: "v2"}}}
 		cfgs := []runCfg{
 			{raftkvs.Config{NumServers: 2, NumClients: 1, MaxTerm: 3, MaxCommitIndex: 3, FIFO: true, Budgeted: true, Requests: put}, 0, ""},
 			{raftkvs.Config{NumServers: 2, NumClients: 1, MaxTerm: 4, MaxCommitIndex: 3, FIFO: true, Budgeted: true, Requests: put, ExploreFail: true, MaxNodeFail: 1}, 1, "elect"},
 			{raftkvs.Config{NumServers: 3, NumClients: 1, MaxTerm: 4, MaxCommitIndex: 3, FIFO: true, Budgeted: true, Requests: put}, 1, "commit-lagging"},
+			{raftkvs.Config{NumServers: 3, NumClients: 1, MaxTerm: 4, MaxCommitIndex: 4, FIFO: true, Budgeted: true, Requests: put2}, 1, "commit2-lagging"},
 		}
 		if env.Thorough() {
 			cfgs = append(cfgs,
@@ -100,7 +117,7 @@ func TestCheck(t *testing.T) {
 				runCfg{raftkvs.Config{NumServers: 2, NumClients: 1, MaxTerm: 4, MaxCommitIndex: 3, FIFO: true, Budgeted: true, Requests: put, ExploreFail: true, MaxNodeFail: 1}, 2, ""})
 		}
 		// each instance gets an equal share of the time budget; a capped instance reports the depth it completed
-		share := time.Until(env.Deadline) / time.Duration(len(cfgs)+1)
+		var share time.Duration
 		if j := os.Getenv("VERIF_C08_CFGS"); j != "" { // exploration aid: override the instance list
 			cfgs = nil
 			if err := json.Unmarshal([]byte(j), &cfgs); err != nil {
@@ -112,7 +129,12 @@ func TestCheck(t *testing.T) {
 		per := []any{}
 		seen := map[string]bool{}
 		var samples []any
-		for _, cfg := range cfgs {
+		for ci, cfg := range cfgs {
+			// every instance gets an equal share of what is left (early finishers leave their time to the rest)
+			share = time.Until(env.Deadline) * 8 / 10 / time.Duration(len(cfgs)-ci)
+			if share < 5*time.Second {
+				share = 5 * time.Second
+			}
 			sys, err := build(cfg)
 			if err != nil {
 				// the scripted prefix is not an execution of this tree: the scenario does not apply
@@ -129,8 +151,12 @@ func TestCheck(t *testing.T) {
 			trans += r.Transitions
 			exhaustive = exhaustive && r.Exhaustive
 			nConf := 0
+			confCap, confDeadline := 2000, time.Now().Add(share/5)
+			if env.Thorough() {
+				confCap *= 20
+			}
 			for _, leaf := range r.Leaves {
-				if nConf >= 2000 {
+				if nConf >= confCap || time.Now().After(confDeadline) {
 					break
 				}
 				path := r.PathTo(leaf)
